@@ -104,25 +104,12 @@ Theorem C11_d10_set_rejected_after_repair :
   fst (add_batch ev_d10 (init []) d10_set) = Err EkCircularInclude.
 Proof. vm_compute. reflexivity. Qed.
 
-(* After the D10 repair: every accepted set renders with bounded recursion -- the model of the
-   render recursion (render -> root ancestor's main chunk; include -> the included template's
-   OWN main chunk; RenderBlock -> lineage[0]; super() -> one level up; component call -> one
-   level deeper, cut at 20) never runs out of `render_fuel s` -- PROVIDED no template's block
-   lineage nests blocks cyclically (`blocks_acyclic`, decidable, checked by finalize when
-   ev_fix_d13 = true).  That proviso is the known class D13 below. *)
-Theorem C11_accepted_renders_finitely : forall ev sufs (m : smap),
-  msorted m -> ev_fix_d10 ev = true -> forall tm comps,
-  finalize_src ev sufs m = Ok (tm, comps) ->
-  (forall n e, mfind n tm = Some e -> blocks_acyclic (e_lineage e) = true) ->
-  forall n,
-    render (render_fuel {| st_sufs := sufs; st_tpls := tm; st_comps := comps |}) (ev_prefixes ev)
-           {| st_sufs := sufs; st_tpls := tm; st_comps := comps |} n <> ROutOfFuel.
-Proof. exact render_fuel_suffices. Qed.
-
-(* D13 (new): block nesting inverted across inheritance, reached through super(); no include
+(* D13 (new, found while proving the above): block nesting inverted across inheritance and
+   reached again through super(); no include involved
      base = {% block a %}{% block b %}{% endblock %}{% endblock %}
      kid  = {% extends "base" %}{% block b %}{% block a %}{{ super() }}{% endblock %}{% endblock %}
-   accepted (also after the D10 repair), and render("kid") recurses without bound *)
+   is accepted by the pinned code AND by the code with only the D10 repair, and render("kid")
+   recurses without bound *)
 Definition nBase : name := [98%N].
 Definition nKid : name := [107%N].
 Definition bA : name := [97%N].
@@ -137,6 +124,39 @@ Theorem C11_block_nest_cycle_refuted :
               render (render_fuel s) [] s nKid = ROutOfFuel.
 Proof. eexists. eexists. vm_compute. repeat split. Qed.
 
+Definition ev_fixed : env :=
+  {| ev_prefixes := []; ev_filters := []; ev_tests := []; ev_funcs := [];
+     ev_fix_d10 := true; ev_fix_d13 := true |}.
+
+Theorem C11_d13_set_rejected_after_repair :
+  fst (add_batch ev_fixed (init []) d13_set) = Err EkMsg.
+Proof. vm_compute. reflexivity. Qed.
+
+(* With the D10 repair alone: every accepted set renders with bounded recursion -- the model of
+   the render recursion (render -> root ancestor's main chunk; include -> the included
+   template's OWN main chunk; RenderBlock -> lineage[0]; super() -> one level up; component
+   call -> one level deeper, cut at 20) never runs out of `render_fuel s` -- provided no
+   template's block lineage nests blocks cyclically (`blocks_acyclic`, decidable). *)
+Theorem C11_accepted_renders_finitely_modulo_block_nesting : forall ev sufs (m : smap),
+  msorted m -> ev_fix_d10 ev = true -> forall tm comps,
+  finalize_src ev sufs m = Ok (tm, comps) ->
+  (forall n e, mfind n tm = Some e -> blocks_acyclic (e_lineage e) = true) ->
+  forall n,
+    render (render_fuel {| st_sufs := sufs; st_tpls := tm; st_comps := comps |}) (ev_prefixes ev)
+           {| st_sufs := sufs; st_tpls := tm; st_comps := comps |} n <> ROutOfFuel.
+Proof. exact render_fuel_suffices. Qed.
+
+(* With both repairs (D10: the include walk follows the parents' includes; D13: finalize rejects
+   a block lineage that leads back to itself): EVERY accepted set, over every configuration,
+   renders every template with recursion depth below render_fuel -- full strength. *)
+Theorem C11_accepted_renders_finitely : forall ev sufs (m : smap),
+  msorted m -> ev_fix_d10 ev = true -> ev_fix_d13 ev = true -> forall tm comps,
+  finalize_src ev sufs m = Ok (tm, comps) ->
+  forall n,
+    render (render_fuel {| st_sufs := sufs; st_tpls := tm; st_comps := comps |}) (ev_prefixes ev)
+           {| st_sufs := sufs; st_tpls := tm; st_comps := comps |} n <> ROutOfFuel.
+Proof. exact render_fuel_suffices_full. Qed.
+
 Print Assumptions C11_resolve_spec.
 Print Assumptions C11_resolve_none_spec.
 Print Assumptions C11_find_parents_spec.
@@ -148,6 +168,8 @@ Print Assumptions C11_accepted_only_if.
 Print Assumptions C11_accepted_renders_finitely_refuted.
 Print Assumptions C11_d10_set_rejected_after_repair.
 Print Assumptions C11_accepted_renders_finitely.
+Print Assumptions C11_accepted_renders_finitely_modulo_block_nesting.
+Print Assumptions C11_d13_set_rejected_after_repair.
 Print Assumptions C11_block_nest_cycle_refuted.
 
 (* ---- non-vacuity: a legitimate set (a parent that includes a partial, a child that calls
@@ -158,7 +180,7 @@ Definition ok_set : list (name * source) :=
     (nP, Some (mk None [OText 3%N] [] []));
     (nB, Some (mk (Some nA) [OBlock nY] [(nY, [OText 4%N; OSuper])] [nY])) ].
 Example ok_set_renders :
-  let '(r, s) := add_batch ev_d10 (init []) ok_set in
+  let '(r, s) := add_batch ev_fixed (init []) ok_set in
   r = Ok tt /\ render (render_fuel s) [] s nB = RText [1%N; 3%N; 4%N; 2%N] /\
   forallb (fun ne => blocks_acyclic (e_lineage (snd ne))) (st_tpls s) = true.
 Proof. vm_compute. repeat split. Qed.
